@@ -235,10 +235,11 @@ def replay_state(yaml, pkgdir, st, nrep, tier, res, bag):
             res['drift'].setdefault(key, {'symbols': syms, 'text': text[:80], 'what': d[:300]})
         # first representative: str / bytes / text stream x scan, parse, compose_all; further ones: the other delivery forms
         if k == 0:
-            obs = observe(yaml, pkgdir, text, None, only_forms=('str', 'bytes', 'stream-str'))
+            obs = observe(yaml, pkgdir, text, None, only_forms=('str',))
+            obs += observe(yaml, pkgdir, text, None, only_forms=('bytes', 'stream-str'), entries=('scan', 'compose_all'))
         else:
             # streams with short reads (1..3 units: a chunk boundary inside every token of these short inputs), UTF-16
-            obs = observe(yaml, pkgdir, text, None, extra_forms=True, rnd=rnd, kmax=3,
+            obs = observe(yaml, pkgdir, text, None, extra_forms=True, rnd=rnd, kmax=3, entries=('scan', 'compose_all'),
                           only_forms=('short-str', 'short-bytes', 'short-bytes-utf-16-le', 'short-bytes-utf-16-be'))
         res['runs'] += len(obs)
         short = text if len(text) <= 60 else text[:60] + '...(%d)' % len(text)
@@ -300,7 +301,7 @@ def corpus_items(tier, rnd):
     files = sorted(glob.glob(os.path.join(REPO, 'tests/legacy_tests/data/*')))
     muts = mutation_symbols()
     items = []
-    nmut = 5 if tier == 'quick' else 60
+    nmut = 4 if tier == 'quick' else 60
     badunits = [b'\xff', b'\xc3', b'\x80', b'\xed\xa0\x80', b'\xf8\x88\x80\x80\x80', b'\x00', b'\xef\xbb\xbf', b'\xff\xfe', b'\xfe\xff',
                 b'\x00\xd8', b'\xc0\xaf', b'\xf4\x90\x80\x80', b'\xe2\x82']
     for f in files:
@@ -373,7 +374,7 @@ def corpus_items(tier, rnd):
                 ctx = rnd.choice(['%s', '- %s', 'k: %s', '[%s]', '%s: v', '{%s: 1}'])
                 items.append(('num-%s%d%s' % (pre, ln, suf), ctx % (pre + run + suf), None))
     # seeded random byte strings and random strings over the concrete alphabet
-    nrand = 1500 if tier == 'quick' else 40000
+    nrand = 900 if tier == 'quick' else 40000
     pool = [r for s, rs in sm.REPS.items() if s not in ('L', 'DBIG') for r in rs]
     weighted = [b'-', b':', b' ', b'\n', b'[', b']', b'{', b'}', b',', b'"', b"'", b'\\', b'!', b'&', b'*', b'|', b'>', b'%', b'#', b'?',
                 b'a', b'1', b'\r', b'\t', b'\xc3\xa9', b'\xff', b'\x00', b'\xef\xbb\xbf', b'\xc2\x85', b'\xe2\x80\xa8', b'x', b'U', b'u',
